@@ -122,8 +122,8 @@ def subimage(arr, center, shape):
     center = (np.round(center)).astype(int)
 
     if np.isscalar(shape):
-        shape = np.repeat(shape, arr.ndim)
-    assert len(shape) == arr.ndim
+        shape = np.repeat(shape, len(center))
+    assert len(shape) == len(center)
 
     def intr(n):
         return intr(np.round(n))
